@@ -270,23 +270,64 @@ Print Assumptions C18_blob_F6_refuted.
 
 (** ** Kubernetes *)
 
-(** all watch histories that are well formed ([k8s_wf]: a Deleted event carries the
-    object's last auth class; for an object staying in the provider's class the
-    generation changes exactly when the rules change).  The provider keeps no
-    record of what it applied and relies on the processor's idempotent
-    operations, so its trace is read modulo calls that change nothing
-    ([norm_trace]: an update of something not loaded is a creation, a deletion of
-    something not loaded and an update to the loaded content are dropped). *)
+(** A history is what the API server delivers: watch events and, after the watch
+    broke, new lists (relists), over the names [0..nn-1].  [k8s_wf]: UIDs are unique
+    across names, a Deleted event carries the object's last auth class, and for an
+    object staying in the provider's class the generation changes exactly when the
+    rules change.  The provider keeps no record of what it applied and relies on the
+    processor's idempotent operations, so its trace (one step per object handed to
+    the handlers) is read modulo calls that change nothing ([norm_trace]: an update
+    of something not loaded is a creation; a deletion of something not loaded and
+    an update to the loaded content are dropped).
+    Outside the guards of the open findings C18-F7 (a relist finds a stored object
+    missing: the tombstone makes [filter] panic; not needed for the repaired
+    provider, [f7 = true]) and C18-F8 (an object arrives under a name whose stored
+    object has another UID): no handler panics and the trace is right. *)
 Theorem C18_k8s_all_histories : forall O,
   (forall s, deletable O s = true) ->
-  forall h, k8s_wf h = true -> trace_ok (accepts O) (norm_trace (k8s_raw_trace O h)) = true.
+  forall f7 f8 nn h,
+  k8s_wf nn h = true ->
+  f7 = true \/ k8s_guard_F7 nn h = false ->
+  k8s_guard_F8 nn h = false ->
+  panicked (snd (k8s_run O f7 f8 nn h)) = false /\
+  trace_ok (accepts O) (norm_trace (k8s_raw_trace O f7 f8 nn h)) = true.
 Proof. exact k8s_trace_ok. Qed.
 Print Assumptions C18_k8s_all_histories.
 
 (** and what the provider's actual (un-normalised) calls leave loaded is the latest valid content seen *)
 Theorem C18_k8s_converges : forall O,
   (forall s, deletable O s = true) ->
-  forall h u, k8s_wf h = true ->
-  active_of (k8s_raw_trace O h) (Sid u) = latest_valid (accepts O) (seen_of (k8s_raw_trace O h) (Sid u)).
+  forall f7 f8 nn h u,
+  k8s_wf nn h = true ->
+  f7 = true \/ k8s_guard_F7 nn h = false ->
+  k8s_guard_F8 nn h = false ->
+  active_of (k8s_raw_trace O f7 f8 nn h) (Sid u)
+  = latest_valid (accepts O) (seen_of (k8s_raw_trace O f7 f8 nn h) (Sid u)).
 Proof. exact k8s_converges. Qed.
 Print Assumptions C18_k8s_converges.
+
+(** C18-F7: deleted while the watch is broken — the provider as it is panics
+    (the process dies, the rule set stays loaded); the repaired one unloads it *)
+Theorem C18_k8s_F7_refuted :
+  exists h, k8s_wf 1 h = true /\ k8s_guard_F7 1 h = true /\ k8s_guard_F8 1 h = false /\
+            panicked (snd (k8s_run O_all false false 1 h)) = true /\
+            panicked (snd (k8s_run O_all true false 1 h)) = false /\
+            trace_ok (accepts O_all) (norm_trace (k8s_raw_trace O_all true false 1 h)) = true /\
+            active_of (k8s_raw_trace O_all false false 1 h) (Sid 0) = Some 1 /\
+            active_of (k8s_raw_trace O_all true false 1 h) (Sid 0) = None.
+Proof. exact k8s_F7_refuted. Qed.
+Print Assumptions C18_k8s_F7_refuted.
+
+(** C18-F8: deleted and re-created under the same name while the watch is broken —
+    the old object's rule set stays loaded, the new one's is never loaded; the
+    repaired update handler unloads the old and loads the new *)
+Theorem C18_k8s_F8_refuted :
+  exists h, k8s_wf 1 h = true /\ k8s_guard_F8 1 h = true /\ k8s_guard_F7 1 h = false /\
+            trace_ok (accepts O_all) (norm_trace (k8s_raw_trace O_all true false 1 h)) <> true /\
+            active_of (k8s_raw_trace O_all true false 1 h) (Sid 0) = Some 1 /\
+            active_of (k8s_raw_trace O_all true false 1 h) (Sid 1) = None /\
+            trace_ok (accepts O_all) (norm_trace (k8s_raw_trace O_all true true 1 h)) = true /\
+            active_of (k8s_raw_trace O_all true true 1 h) (Sid 0) = None /\
+            active_of (k8s_raw_trace O_all true true 1 h) (Sid 1) = Some 2.
+Proof. exact k8s_F8_refuted. Qed.
+Print Assumptions C18_k8s_F8_refuted.
